@@ -5,6 +5,7 @@ import E57.Drv.Reader
 import E57.Drv.Spec
 import E57.Drv.Enc
 import E57.Drv.Tools
+import E57.Drv.SFloat
 open E57 E57.Drv
 
 def dispatch (engine : String) (toks : List String) : String :=
@@ -21,6 +22,7 @@ def dispatch (engine : String) (toks : List String) : String :=
   | "enc" => encLine toks
   | "tools" => toolsLine toks
   | "copy" => writerLine toks
+  | "sfloat" => sfloatLine toks
   | _ => "BADENGINE"
 
 partial def loop (engine : String) (h : IO.FS.Stream) (out : IO.FS.Stream) : IO Unit := do
